@@ -585,7 +585,7 @@ func (c *Compiler) structCode(typ *runtime.Type, isPtr bool) (*StructCode, error
 		derefCode.isRecursive = true
 		return &derefCode, nil
 	}
-	indirect := runtime.IfaceIndir(typ)
+	indirect := true
 	code := &StructCode{typ: typ, isPtr: isPtr, isIndirect: indirect}
 	c.structTypeToCode[key] = code
 
